@@ -678,10 +678,11 @@ every iteration limit, start counter and `eps > 0`, the state `QpSolver::solve` 
 admissibility hypothesis on the working sets is left, the solver's own selections are covered, the re-selection in the
 stopping branch included. -/
 theorem solve_inv_box (strategy : Nat) (hstr : 2 ≤ strategy) (eps : Rat) (heps : 0 < eps) :
-    ∀ (fuel : Nat) (s : RS) (counter it : Nat), Inv s → s.eqc = false → Inv (solve strategy eps fuel s counter it).1 := by
+    ∀ (fuel : Nat) (s : RS) (counter it : Nat), Inv s → s.eqc = false →
+      Inv (solve strategy eps fuel s counter it).1 ∧ (solve strategy eps fuel s counter it).1.eqc = false := by
   intro fuel
   induction fuel with
-  | zero => intro s _ _ h _; exact h
+  | zero => intro s _ _ h he; exact ⟨h, he⟩
   | succ fuel ih =>
     intro s counter it h he
     obtain ⟨hev, hnext⟩ := solveIter_inv_box strategy hstr eps heps s counter h he
@@ -690,11 +691,156 @@ theorem solve_inv_box (strategy : Nat) (hstr : 2 ≤ strategy) (eps : Rat) (heps
     | none =>
       simp only []
       cases hl : (solveIter strategy eps s counter).1.getLast? with
-      | none => simpa using h
-      | some e => simpa using (hev e (List.mem_of_getLast? hl)).1
+      | none => simpa using ⟨h, he⟩
+      | some e => simpa using hev e (List.mem_of_getLast? hl)
     | some p =>
       obtain ⟨s', c'⟩ := p
       simp only []
       exact ih s' c' (it + 1) (hnext s' c' hn).1 (hnext s' c' hn).2
+
+/-! ## 8. Every run of `QpSolver::solve` on the equality-constrained problem -/
+
+/-- **every pass of `QpSolver::solve` on the equality-constrained problem** (LibSVM second-order selection,
+`strategy = 1`, `eps > 0`), the stopping branch with its re-selection included, as long as the gradients of the
+un-shrunk state stay strictly inside the C++ sentinel range `(−1e100, 1e100)`: every state the pass produces satisfies
+the invariant, and so does the state handed to the next pass. -/
+theorem solveIter_inv_svm (eps : Rat) (heps : 0 < eps) (s : RS) (counter : Nat)
+    (h : Inv s) (he : s.eqc = true) (hr : SentinelOK s) :
+    (∀ e, e ∈ (solveIter 1 eps s counter).1 → Inv e.2 ∧ e.2.eqc = true) ∧
+    (∀ s' c', (solveIter 1 eps s counter).2 = some (s', c') → Inv s' ∧ s'.eqc = true) := by
+  have hsel : ∀ (t : RS) (i0 j0 : Nat), t.select 1 i0 j0 = t.selectLibSVM := fun _ _ _ => rfl
+  have hstep : ∀ (t : RS), Inv t → t.eqc = true → 0 < t.selectLibSVM.2.2 →
+      Inv (t.updateSMO t.selectLibSVM.1 t.selectLibSVM.2.1) ∧ (t.updateSMO t.selectLibSVM.1 t.selectLibSVM.2.1).eqc = true := by
+    intro t ht hte hpos
+    obtain ⟨hi, hj, hg⟩ := selectLibSVM_spec t hpos
+    exact ⟨updateSMO_inv_svm ht hte hi hj (le_of_lt hg), ((updateSMO_frame t _ _).2.1).trans hte⟩
+  have htail : ∀ (t : RS) (pre : List (Ev × RS)), Inv t → t.eqc = true → 0 < t.selectLibSVM.2.2 →
+      (∀ e, e ∈ pre → Inv e.2 ∧ e.2.eqc = true) →
+      let s3 := t.updateSMO t.selectLibSVM.1 t.selectLibSVM.2.1
+      let evs := pre ++ [(Ev.smo t.selectLibSVM.1 t.selectLibSVM.2.1, s3)]
+      (∀ e, e ∈ evs → Inv e.2 ∧ e.2.eqc = true) ∧
+      (∀ e, e ∈ evs ++ [(Ev.shrink (s3.shrink eps).2, (s3.shrink eps).1)] → Inv e.2 ∧ e.2.eqc = true) ∧
+      (Inv (s3.shrink eps).1 ∧ (s3.shrink eps).1.eqc = true) ∧ (Inv s3 ∧ s3.eqc = true) := by
+    intro t pre ht hte hpos hpre s3 evs
+    have h3 := hstep t ht hte hpos
+    have h4 : Inv (s3.shrink eps).1 ∧ (s3.shrink eps).1.eqc = true :=
+      ⟨inv_shrink h3.1 eps, (shrink_eqc s3 h3.1 eps).trans h3.2⟩
+    refine ⟨?_, ?_, h4, h3⟩
+    · intro e he'
+      rcases List.mem_append.mp he' with h' | h'
+      · exact hpre e h'
+      · simp only [List.mem_cons, List.not_mem_nil, or_false] at h'; rw [h']; exact h3
+    · intro e he'
+      rcases List.mem_append.mp he' with h' | h'
+      · rcases List.mem_append.mp h' with h'' | h''
+        · exact hpre e h''
+        · simp only [List.mem_cons, List.not_mem_nil, or_false] at h''; rw [h'']; exact h3
+      · simp only [List.mem_cons, List.not_mem_nil, or_false] at h'; rw [h']; exact h4
+  unfold solveIter
+  simp only [hsel]
+  by_cases hacc : s.selectLibSVM.2.2 < eps
+  · simp only [hacc, if_true]
+    have hu : Inv s.unshrink := inv_unshrink h
+    have hue : s.unshrink.eqc = true := (unshrink_eqc s).trans he
+    by_cases hkkt : s.unshrink.checkKKT < eps
+    · simp only [hkkt, if_true]
+      refine ⟨?_, fun s' c' hn => by simp at hn⟩
+      intro e he'
+      simp only [List.mem_cons, List.not_mem_nil, or_false] at he'
+      rw [he']; exact ⟨hu, hue⟩
+    · simp only [hkkt, if_false]
+      have hkpos : 0 < s.unshrink.checkKKT := lt_of_lt_of_le heps (not_lt.mp hkkt)
+      have ht : Inv (s.unshrink.shrink eps).1 := inv_shrink hu eps
+      have hte : (s.unshrink.shrink eps).1.eqc = true := (shrink_eqc _ hu eps).trans hue
+      have hn : s.unshrink.n = s.n := orderFree_n.unshrink s
+      have hpos : 0 < (s.unshrink.shrink eps).1.selectLibSVM.2.2 :=
+        shrink_svm_select_pos hu hue (unshrink_active s) eps hkpos (fun a ha => hr a (by rw [← hn]; exact ha))
+      have hpre : ∀ e, e ∈ [(Ev.unshrink, s.unshrink), (Ev.shrink (s.unshrink.shrink eps).2, (s.unshrink.shrink eps).1)] →
+          Inv e.2 ∧ e.2.eqc = true := by
+        intro e he'
+        simp only [List.mem_cons, List.not_mem_nil, or_false] at he'
+        rcases he' with h' | h' <;> rw [h']
+        · exact ⟨hu, hue⟩
+        · exact ⟨ht, hte⟩
+      obtain ⟨t1, t2, t3, t4⟩ := htail _ _ ht hte hpos hpre
+      try dsimp only at t1 t2 t3 t4 ⊢
+      split
+      · exact ⟨t2, fun s' c' hn => by simp only [Option.some.injEq, Prod.mk.injEq] at hn; rw [← hn.1]; exact t3⟩
+      · exact ⟨t1, fun s' c' hn => by simp only [Option.some.injEq, Prod.mk.injEq] at hn; rw [← hn.1]; exact t4⟩
+  · simp only [hacc, if_false]
+    have hv : 0 < s.selectLibSVM.2.2 := lt_of_lt_of_le heps (not_lt.mp hacc)
+    obtain ⟨t1, t2, t3, t4⟩ := htail s [] h he hv (fun e he' => by simp at he')
+    try dsimp only at t1 t2 t3 t4 ⊢
+    simp only [List.nil_append] at t1 t2 ⊢
+    split
+    · exact ⟨t2, fun s' c' hn => by simp only [Option.some.injEq, Prod.mk.injEq] at hn; rw [← hn.1]; exact t3⟩
+    · exact ⟨t1, fun s' c' hn => by simp only [Option.some.injEq, Prod.mk.injEq] at hn; rw [← hn.1]; exact t4⟩
+
+/-- the states at which the passes of a run start -/
+def passStates (strategy : Nat) (eps : Rat) : Nat → RS → Nat → List RS
+  | 0, _, _ => []
+  | fuel + 1, s, counter =>
+    s :: (match (solveIter strategy eps s counter).2 with
+          | none => []
+          | some (s', c') => passStates strategy eps fuel s' c')
+
+/-- **the whole solver run on the equality-constrained problem** (`CSvmTrainer` with bias, ε-regression, one-class:
+LibSVM second-order selection): the final state satisfies the invariant, provided the gradients stay strictly inside the
+sentinel range at the start of every pass. -/
+theorem solve_inv_svm_partial (eps : Rat) (heps : 0 < eps) :
+    ∀ (fuel : Nat) (s : RS) (counter it : Nat), Inv s → s.eqc = true →
+      (∀ t, t ∈ passStates 1 eps fuel s counter → SentinelOK t) →
+      Inv (solve 1 eps fuel s counter it).1 ∧ (solve 1 eps fuel s counter it).1.eqc = true := by
+  intro fuel
+  induction fuel with
+  | zero => intro s _ _ h he _; exact ⟨h, he⟩
+  | succ fuel ih =>
+    intro s counter it h he hr
+    have hrs : SentinelOK s := hr s (by unfold passStates; exact List.mem_cons_self ..)
+    obtain ⟨hev, hnext⟩ := solveIter_inv_svm eps heps s counter h he hrs
+    unfold solve
+    cases hn : (solveIter 1 eps s counter).2 with
+    | none =>
+      simp only []
+      cases hl : (solveIter 1 eps s counter).1.getLast? with
+      | none => simpa using ⟨h, he⟩
+      | some e => simpa using hev e (List.mem_of_getLast? hl)
+    | some p =>
+      obtain ⟨s', c'⟩ := p
+      simp only []
+      refine ih s' c' (it + 1) (hnext s' c' hn).1 (hnext s' c' hn).2 ?_
+      intro t ht
+      apply hr t
+      unfold passStates
+      rw [hn]
+      exact List.mem_cons_of_mem _ ht
+
+/-- the sentinel hypothesis is not an artefact: with gradients below `−1e100` the LibSVM criterion overlooks a strictly
+violating admissible pair (two free variables with gradients `−2e100 > −3e100`) and reports the violation 0 -/
+def sentinelWitness : RS where
+  n := 2
+  K := fun _ _ => 0
+  eqc := true
+  shrinkOn := false
+  unshrinked := false
+  active := 2
+  perm := fun k => k
+  lin := fun k => if k = 0 then -(2 * 10 ^ 100) else -(3 * 10 ^ 100)
+  alpha := fun _ => 1 / 2
+  diag := fun _ => 0
+  L := fun _ => 0
+  U := fun _ => 1
+  g := fun k => if k = 0 then -(2 * 10 ^ 100) else -(3 * 10 ^ 100)
+  gEdge := fun k => if k = 0 then -(2 * 10 ^ 100) else -(3 * 10 ^ 100)
+  lo := fun _ => false
+  up := fun _ => false
+
+theorem selectLibSVM_sentinel_witness :
+    sentinelWitness.up 0 = false ∧ sentinelWitness.lo 1 = false ∧ sentinelWitness.g 1 < sentinelWitness.g 0 ∧
+    sentinelWitness.selectLibSVM.2.2 = 0 := by
+  refine ⟨rfl, rfl, by norm_num [sentinelWitness], ?_⟩
+  simp only [State.selectLibSVM, sentinelWitness, List.range_succ, List.range_zero, List.nil_append, List.foldl_cons,
+    List.foldl_nil, List.cons_append, lit1e100', lit0]
+  norm_num
 
 end SharkVerif.C08
